@@ -89,7 +89,7 @@ impl<'v, 's> SchemaAwareRecordFieldDefault<'v, 's> {
                 })
                 | Schema::Uuid(UuidSchema::Fixed(fixed))
                 | Schema::Duration(fixed),
-            ) => s.len() == fixed.size,
+            ) => s.chars().count() == fixed.size,
             (Value::String(s), Schema::Enum(enum_schema)) => enum_schema.symbols.contains(s),
             (Value::Object(o), Schema::Record(record)) => record.fields.iter().all(|field| {
                 if let Some(value) = o.get(&field.name) {
@@ -156,7 +156,20 @@ impl<'v, 's> Serialize for SchemaAwareRecordFieldDefault<'v, 's> {
                 | Schema::BigDecimal
                 | Schema::Decimal(_)
                 | Schema::Duration(_),
-            ) => serializer.serialize_bytes(s.as_bytes()),
+            ) => {
+                // A bytes/fixed default is a JSON string whose code points 0-255 are the byte values
+                let bytes = s
+                    .chars()
+                    .map(|c| u8::try_from(u32::from(c)))
+                    .collect::<Result<Vec<u8>, _>>()
+                    .map_err(|_| {
+                        S::Error::custom(format!(
+                            "Default for {:?} contains a code point above U+00FF: {s:?}",
+                            self.schema
+                        ))
+                    })?;
+                serializer.serialize_bytes(&bytes)
+            }
             (Value::String(s), Schema::String | Schema::Uuid(UuidSchema::String)) => {
                 serializer.serialize_str(s)
             }
